@@ -4,8 +4,12 @@ CHECK = dict(
     harness_flags=["-fno-lifetime-dse"],
     variants=[dict(name="asan", flavour="asan")],
     floor={"asan:opt_op_copy-assign": 100, "asan:opt_op_move-construct": 100, "asan:any_cmp_empty_valid": 20,
-           "asan:any_toString_empty": 20, "asan:opt_cmp_empty_empty": 20},
+           "asan:any_toString_empty": 20, "asan:opt_cmp_empty_empty": 20,
+           "asan:opt_fault_in_emplace": 50, "asan:opt_fault_in_copy-assign": 30, "asan:opt_fault_in_make_optional": 50,
+           "asan:opt_fault_in_assign-value-lvalue": 50},
     assumptions=[
+        "after a payload operation that throws (failpoint in the instrumented payload) the wrapper may report engaged or empty; what "
+        "is demanded is that an engaged wrapper holds a live payload, nothing is destroyed twice or left behind, and copy sources are intact",
         "results of comparisons that involve an empty wrapper are not asserted (the property only requires that they return)",
         "a moved-from std::string / std::vector payload has an unspecified value; the model then only tracks engagement",
     ],
